@@ -232,6 +232,19 @@ mzd_t *vf_mul_mp(mzd_t *C, mzd_t const *A, mzd_t const *B, int cutoff, int add, 
 int vf_omp_max_threads(void);
 void vf_omp_set_threads(int n);
 
+/* allocation wrapper (wrapalloc.c in the "wrap" configurations, inert stubs otherwise) */
+void vf_wrap_enable(int on);
+void vf_wrap_set_fill(int fresh, int freed);
+void vf_wrap_fail_at(long idx);
+long vf_wrap_requests(void);
+long vf_wrap_allocs(void);
+long vf_wrap_frees(void);
+long vf_wrap_live(void);
+long vf_wrap_live_bytes(void);
+long vf_wrap_failed(void);
+int vf_wrap_present(void);
+int vf_wrap_live_sizes(long *out, int max);
+
 #ifdef __cplusplus
 }
 #endif
